@@ -15,6 +15,8 @@ def make_sm_executor(chk, cfg=None, cuts=('persist', 'appset')):
         smodels.cut_do_omaha(ex)
     if 'check_interval' in cuts:
         smodels.cut_report_check_interval(ex)
+    if 'puc' in cuts:
+        smodels.cut_perform_update_check(ex)
     if 'first_seen' in cuts:
         smodels.cut_record_first_seen(ex)
     return ex
